@@ -18,6 +18,62 @@ def ms(t):
     return int(round(t * 1000))
 
 
+_PARAMS = None
+
+
+def measure_params():
+    """(read timeout, connect timeout, post-authentication sleep) in ms, MEASURED on the implementation on the virtual-time
+    loop (a silent peer, a hanging connect, an answered handshake) - the model and the oracles are parametric in them, so a
+    change of these tuning constants alone is not an alarm"""
+    global _PARAMS
+    if _PARAMS is not None:
+        return _PARAMS
+    out = {}
+    token, key = bytes(range(64)), bytes(range(32))
+
+    async def scenario(loop, net):
+        # read timeout: spacing of the retransmissions to a silent V2 device
+        dev2 = simdev.SimDevice(version=2, device_id=1)
+        dev2.script = [("custom", lambda d, tr, req: None)] * 50
+        net.add_tcp("9.9.9.2", 6444, dev2)
+        lan = LAN("9.9.9.2", 6444, 1)
+        try:
+            await lan.send(b"\xaa\x00", retries=2)
+        except Exception:  # noqa
+            pass
+        ts = [ms(e["t"]) for e in dev2.log]
+        out["rt"] = ts[1] - ts[0] if len(ts) >= 2 else 2000
+        # connect timeout: a hanging connect
+        net.add_tcp("9.9.9.3", 6444, simdev.SimDevice(version=2, device_id=1))
+        net.connect_script[("9.9.9.3", 6444)] = ["hang"]
+        lan3 = LAN("9.9.9.3", 6444, 1)
+        t0 = loop.now()
+        try:
+            await lan3.send(b"\xaa\x00", retries=1)
+        except Exception:  # noqa
+            pass
+        out["ct"] = ms(loop.now() - t0)
+        # post-authentication sleep: answered handshake (reply after 0.1 s)
+        dev4 = simdev.SimDevice(version=3, device_id=1, token=token, key=key)
+        net.add_tcp("9.9.9.4", 6444, dev4)
+        lan4 = LAN("9.9.9.4", 6444, 1)
+        t0 = loop.now()
+        try:
+            await lan4.authenticate(token, key)
+        except Exception:  # noqa
+            pass
+        out["as"] = ms(loop.now() - t0) - 100
+    try:
+        vloop.run(scenario)
+    except Exception:  # noqa
+        pass
+    rt, ct, as_ = out.get("rt", 2000), out.get("ct", 5000), out.get("as", 1000)
+    if rt <= 200 or ct <= 0 or as_ < 0:
+        rt, ct, as_ = 2000, 5000, 1000
+    _PARAMS = (rt, ct, as_)
+    return _PARAMS
+
+
 class Recorder:
     """records every reaction of the peer, keyed by (cid, index of the client write that triggered it)"""
 
@@ -91,7 +147,7 @@ class Director:
         if mode == "ok" or mode == "late":
             reply = d._proper_reply(conn, req)
             if reply:
-                d._send(conn, 0.1 if mode == "ok" else 2.137, reply)
+                d._send(conn, 0.1 if mode == "ok" else (measure_params()[0] + 137) / 1000, reply)
         elif mode == "okpush":
             # answered properly, and a different (unsolicited) frame is pushed later, while the connection is idle:
             # it is found in the receive queue by the NEXT exchange, which must return it before its own response
@@ -120,7 +176,7 @@ class Director:
             # answered properly, but only after all retransmissions have timed out
             reply = d._proper_reply(conn, req)
             if reply:
-                d._send(conn, 7.037, reply)
+                d._send(conn, (3 * measure_params()[0] + 1037) / 1000, reply)
         elif mode == "partial":
             # the beginning of a packet that announces 65,520 more bytes and never completes
             d._send(conn, 0.1, b"\x83\x70\xff\xf0\x20\x01" + bytes(range(10)))
@@ -194,7 +250,7 @@ def run_history(version, ops, behaviours, connects, token, key, device_id=77, re
     # the model does not (and need not) reproduce - such a history is not compared with the model
     res["tie"] = len(set(rec.abs)) != len(rec.abs)
     # ... nor one in which a peer event arrives in the very millisecond in which a read deadline (write + 2 s) falls
-    deadlines = {(e["cid"], ms(e["t"]) + 2000) for e in dev.log}
+    deadlines = {(e["cid"], ms(e["t"]) + measure_params()[0]) for e in dev.log}
     if any(ct in deadlines for ct in rec.abs):
         res["tie"] = True
     res["dev"] = dev
@@ -245,7 +301,7 @@ def run_stack(ops, connects, token, key, device_id=77, responder=None):
         rec.uninstall()
     res["rx"] = rec.rx
     res["tie"] = len(set(rec.abs)) != len(rec.abs)
-    deadlines = {(e["cid"], ms(e["t"]) + 2000) for e in dev.log}
+    deadlines = {(e["cid"], ms(e["t"]) + measure_params()[0]) for e in dev.log}
     if any(ct in deadlines for ct in rec.abs):
         res["tie"] = True
     res["dev"] = dev
@@ -253,7 +309,8 @@ def run_stack(ops, connects, token, key, device_id=77, responder=None):
     return res
 
 
-def stack_line(ops, rx, connects, counter, params=(2000, 5000, 1000)):
+def stack_line(ops, rx, connects, counter, params=None):
+    params = params or measure_params()
     def opstr(op):
         if op[0] == "auth":
             return "auth." + hx(op[1]) + "." + hx(op[2])
@@ -336,7 +393,8 @@ def sort_log(evs):
     return [f"{t}:{s}" for t, kind, s in sorted(evs, key=lambda x: (x[0], order[x[1]]))]
 
 
-def model_line(ops, rx, connects, params=(2000, 5000, 1000)):
+def model_line(ops, rx, connects, params=None):
+    params = params or measure_params()
     def opstr(op):
         if op[0] == "send":
             return "send." + hx(op[1])
@@ -395,6 +453,9 @@ def compare(ctx, stream, version, ops, behaviours, connects, token, key, note=No
            "connects": connects, "note": note}
     if res.get("tie"):
         ctx.count("tie-not-compared:" + stream)
+    note_ = "measured timing parameters (read timeout, connect timeout, post-auth sleep) ms: %s" % (measure_params(),)
+    if note_ not in ctx.notes:
+        ctx.notes.append(note_)
     if ctx.driver and not res.get("tie"):
         line = model_line(ops, res["rx"], connects)
         mouts, mevs, mnow = parse_model(ctx.driver.ask(line))
